@@ -1,19 +1,19 @@
 SPECIFICATION Spec
 CONSTANTS
-  Kind = "octree"
-  NUs = {1}
-  NVs = {1}
+  Kind = "grid2d"
+  NUs = {3}
+  NVs = {3}
   NWs = {1}
   DUs = {1}
-  DVs = {1, 2}
-  DWs = {1, 3}
-  Layouts = {0, 1, 2, 3, 4}
-  Rots = {0, 1, 4, 7, 10}
+  DVs = {1}
+  DWs = {1}
+  Layouts = {0}
+  Rots = {7}
   Dips = {0}
-  Orgs = {0, 1}
-  Dims = {2, 3}
+  Orgs = {0}
+  Dims = {2}
   BoxMode = "cross"
-  Deviations = {}
+  Deviations = {"BlankInMemoryOnly"}
 INVARIANT CentresExact
 INVARIANT Partition
 INVARIANT NoneOnlyWhenAllowed
@@ -21,5 +21,4 @@ INVARIANT ValuesFollow
 INVARIANT StoredEqualsLive
 INVARIANT SmallestSubGrid
 INVARIANT FacesSafe
-INVARIANT ExportCase
 CHECK_DEADLOCK FALSE
